@@ -758,6 +758,37 @@ impl<'tcx> Extract<'tcx> {
                             }
                         }
                     }
+                    // arrays of integers (e.g. tables of roots of unity): element values as decimal strings
+                    if let ty::Array(elem, _) = tyc.kind() {
+                        let esz: usize = match elem.kind() {
+                            ty::Uint(u) => u.bit_width().map(|w| (w / 8) as usize).unwrap_or(0),
+                            ty::Int(i) => i.bit_width().map(|w| (w / 8) as usize).unwrap_or(0),
+                            _ => 0,
+                        };
+                        if esz > 0 && generics.count() == 0 && has_body {
+                            if let Ok(val) = tcx.const_eval_poly(did) {
+                                if let mir::ConstValue::Indirect { alloc_id, offset } = val {
+                                    if let rustc_middle::mir::interpret::GlobalAlloc::Memory(mem) = tcx.global_alloc(alloc_id) {
+                                        let alloc = mem.inner();
+                                        let start = offset.bytes() as usize;
+                                        let total = alloc.len();
+                                        let bytes = alloc.inspect_with_uninit_and_ptr_outside_interpreter(start..total);
+                                        let mut elems: Vec<J> = Vec::new();
+                                        for ch in bytes.chunks(esz) {
+                                            if ch.len() == esz {
+                                                let mut x: u128 = 0;
+                                                for (i, b) in ch.iter().enumerate() {
+                                                    x |= (*b as u128) << (8 * i);
+                                                }
+                                                elems.push(s(format!("{}", x)));
+                                            }
+                                        }
+                                        v.push(("va", J::Arr(elems)));
+                                    }
+                                }
+                            }
+                        }
+                    }
                     if let Some(imp) = tcx.impl_of_assoc(did) {
                         v.push(("impl", self.did(imp)));
                     }
